@@ -263,8 +263,9 @@ def send_tail(run: Run, env, tname, what, container):
             ss = d.get(("bool", "method.server_streaming"))
             rcalls = [n for n in ast.walk(fdef) if isinstance(n, ast.Call) and ast.unparse(n.func) == "rpc"]
             awaited = [n for n in ast.walk(fdef) if isinstance(n, ast.Await) and isinstance(n.value, ast.Call) and ast.unparse(n.value.func) == "rpc"]
-            if ss is not None:
-                run.table(f"{tag}:awaited-iff-not-server-streaming", len(rcalls) == 1 and (len(awaited) == 1) == (not ss), group="grpc.send:await")
+            # a variant that never consulted method.server_streaming stands for both values of it: no await discipline can be right for both
+            run.table(f"{tag}:awaited-iff-not-server-streaming", ss is not None and len(rcalls) == 1 and (len(awaited) == 1) == (not ss),
+                      detail=f"server_streaming={ss} calls={len(rcalls)} awaited={len(awaited)}", group="grpc.send:await")
         if len(run.samples) < 10 and vi % 5 == 0:
             run.samples.append({"fragment": tag, "decisions": [str(x) for x in var.decisions][:8], "emitted": var.text[-600:]})
     run.table(f"grpc.send:{what}:some-variant-checked", n_checked > 0, group="grpc.send:cover")
